@@ -45,6 +45,7 @@ ASSUMPTIONS = ['the embedded strings, the crystal_structures list in the module 
                'property C10)']
 
 GROUPS = ('radius', 'structure', 'lines', 'magnetic', 'f0')
+EXTRA_STEPS = {'private_late': ('history',), 'private_reload': ('scramble',), 'private_after_mutation': ('scramble',)}
 ORDERS = {'j0': 0, 'J': 0, 'j2': 2, 'j4': 4, 'j6': 6}
 RTOL = 1e-12        # times the sum of |terms| of the expression (rounding of a 4- or 6-term sum)
 J0_TOL = 0.005      # "within the 0.5 % of its fit"
@@ -241,8 +242,7 @@ def _table(ctx, name):
 def generate(ctx):
     i = 0
     for variant in _variants(ctx):
-        for g in GROUPS + (('history', 'scramble') if variant.startswith('private_') and variant != 'private_fresh'
-                           else ()):
+        for g in GROUPS + EXTRA_STEPS.get(variant, ()):
             if ctx.mine(i):
                 yield 'loader', {'table': variant, 'group': g}
             i += 1
